@@ -33,5 +33,15 @@ public class ByteBuf {
     public int writeCharSequence(CharSequence s, Charset cs) { byte[] b = s.toString().getBytes(cs); writeBytes(b); return b.length; }
     public CharSequence readCharSequence(int n, Charset cs) { chk(n); String s = new String(a, r, n, cs); r += n; return s; }
     public byte getByte(int i) { return a[i]; }
+    private void nonNeg(int n) { if (n < 0) throw new IllegalArgumentException("length: " + n + " (expected: >= 0)"); }
+    public ByteBuf readSlice(int n) { nonNeg(n); chk(n); ByteBuf s = new ByteBuf(java.util.Arrays.copyOfRange(a, r, r + n)); r += n; return s; }
+    public ByteBuf readBytes(int n) { return readSlice(n); }
+    public ByteBuf readRetainedSlice(int n) { return readSlice(n); }
+    public ByteBuf skipBytes(int n) { nonNeg(n); chk(n); r += n; return this; }
+    public ByteBuf slice() { return new ByteBuf(toArray()); }
+    public ByteBuf readerIndex(int i) { if (i < 0 || i > w) throw new IndexOutOfBoundsException("readerIndex: " + i); r = i; return this; }
+    public ByteBuf writerIndex(int i) { if (i < r || i > a.length) throw new IndexOutOfBoundsException("writerIndex: " + i); w = i; return this; }
+    public ByteBuf writeBytes(ByteBuf o) { byte[] b = o.toArray(); o.r = o.w; return writeBytes(b); }
+    public boolean release() { return true; }
     public byte[] toArray() { return java.util.Arrays.copyOfRange(a, r, w); }
 }
